@@ -1,5 +1,268 @@
-(* C13 — property theorems (placeholder until the model is built). *)
-From WI Require Import Lib.Base Lib.Info Model.Der Proofs.Der.
-Theorem C13_placeholder : True.
-Proof. exact I. Qed.
-Print Assumptions C13_placeholder.
+(* C13 — generic ASN.1 dump mirrors the DER structure exactly.
+   Only statements; proofs are in Proofs/Der.v and Proofs/DerValues.v.
+   [parse_raw false], [dump false], [value false], [describe false], [asn1_file false] model the
+   code as it is now; the [true] variants model the code before the C13 repairs and appear only
+   in the refutation witnesses at the end. *)
+From WI Require Import Lib.Base Lib.Info Lib.Time gen.Asn1Names Model.Der Proofs.Der Proofs.DerValues.
+Open Scope N_scope.
+
+(* ---------- structure ---------- *)
+
+(* Every well-formed forest of TLV trees within the nesting limit is parsed back, from its DER
+   encoding, to exactly itself: one node per element, same nesting, empty constructed values
+   included (they are [Cons c t []]). *)
+Theorem C13_roundtrip : forall ts,
+  forest_ok ts = true -> ts <> [] -> forest_height ts <= max_depth ->
+  parse_raw false (encode_forest ts) = Ok ts.
+Proof. exact parse_raw_encode. Qed.
+Print Assumptions C13_roundtrip.
+
+Example C13_roundtrip_nonvacuous :
+  let ts := [Cons 0 16 [Cons 0 16 []; Prim 2 5 [65]; Cons 2 0 []; Prim 0 2 [0; 200]]] in
+  forest_ok ts = true /\ ts <> [] /\ forest_height ts <= max_depth /\
+  encode_forest ts = [48; 11; 48; 0; 133; 1; 65; 160; 0; 2; 2; 0; 200].
+Proof. vm_compute. repeat split; discriminate. Qed.
+
+(* DER is canonical for what the parser accepts: whatever bytes parse, they are the encoding of the
+   parsed forest - no second byte string (indefinite or non-minimal length, non-minimal tag,
+   different nesting) yields the same structure - and the forest is well formed and within the limit. *)
+Theorem C13_canonical : forall data ts,
+  bytes_ok data = true -> parse_raw false data = Ok ts ->
+  encode_forest ts = data /\ ts <> [] /\ forest_ok ts = true /\ forest_height ts <= max_depth.
+Proof. intros data ts Hok H. apply parse_raw_canonical; assumption. Qed.
+Print Assumptions C13_canonical.
+
+(* the nesting limit (regenerated from asn1struct.maxDepth) is exact: deeper well-formed structures
+   are an error, hence "unknown ASN.1 data", never a crash or a partial dump *)
+Theorem C13_depth_limit : forall ts,
+  forest_ok ts = true -> ts <> [] -> max_depth < forest_height ts ->
+  (exists e, parse_raw false (encode_forest ts) = Err e) /\
+  describe false (encode_forest ts) = unknown_asn1.
+Proof.
+  intros ts H1 H2 H3. destruct (parse_raw_too_deep ts H1 H2 H3) as [e He].
+  split; [exists e; exact He|]. apply describe_err. intros ts' E. rewrite He in E. discriminate.
+Qed.
+Print Assumptions C13_depth_limit.
+
+(* the recursion of ParseRaw terminates: the fuel of the model is never exhausted *)
+Theorem C13_fuel_unreachable : forall legacy data, parse_raw legacy data <> Err "fuel".
+Proof. exact parse_raw_fuel_adequate. Qed.
+Print Assumptions C13_fuel_unreachable.
+
+(* ---------- the dump ---------- *)
+
+(* For an object that is none of the recognised key or certificate types ([der] = what parseDERData
+   answered), the report is "ASN.1 data" with one child per top-level element, and the tree below
+   has exactly the shape of the TLV forest; no node has attributes. *)
+Theorem C13_shape : forall ts der,
+  forest_ok ts = true -> ts <> [] -> forest_height ts <= max_depth ->
+  i_desc der = bs "unknown ASN.1 data" ->
+  let i := asn1_file false der (encode_forest ts) in
+  i_desc i = bs "ASN.1 data" /\ i_attrs i = [] /\
+  map shape_of_info (i_children i) = map shape_of_tlv ts /\
+  forallb no_attrs (i_children i) = true.
+Proof.
+  intros ts der H1 H2 H3 Hder. cbv zeta.
+  rewrite asn1_file_unrecognised by exact Hder.
+  rewrite (describe_ok false _ ts) by (apply parse_raw_encode; assumption).
+  cbn [i_desc i_attrs i_children]. repeat split.
+  - apply dump_forest_shape.
+  - rewrite forallb_forall. intros i Hi. apply in_map_iff in Hi as (t & <- & _). apply dump_no_attrs.
+Qed.
+Print Assumptions C13_shape.
+
+(* A complete outer element whose content is not DER is "unknown ASN.1 data" without children,
+   not a dump; and a recognised object is reported as what it was recognised as. *)
+Theorem C13_not_der_is_unknown : forall data der,
+  i_desc der = bs "unknown ASN.1 data" -> (forall ts, parse_raw false data <> Ok ts) ->
+  asn1_file false der data = Info (bs "unknown ASN.1 data") [] [].
+Proof. intros data der Hder H. rewrite asn1_file_unrecognised by exact Hder. apply describe_err. exact H. Qed.
+Print Assumptions C13_not_der_is_unknown.
+
+(* Conversely, for arbitrary bytes: whatever is reported as "ASN.1 data" is the dump of a well-formed
+   forest whose DER encoding is exactly the input - nothing is skipped, invented or re-nested. *)
+Theorem C13_dump_mirrors_input : forall data,
+  bytes_ok data = true -> i_desc (describe false data) = bs "ASN.1 data" ->
+  exists ts, encode_forest ts = data /\ forest_ok ts = true /\ ts <> [] /\
+             describe false data = Info (bs "ASN.1 data") [] (map (dump false) ts) /\
+             map shape_of_info (i_children (describe false data)) = map shape_of_tlv ts.
+Proof.
+  intros data Hok H. unfold describe in *.
+  destruct (parse_raw false data) as [ts| |] eqn:P; try (vm_compute in H; discriminate).
+  destruct (parse_raw_canonical data ts P Hok) as (E & Hne & Hf & _).
+  exists ts. repeat split; try assumption. cbn [i_children]. apply dump_forest_shape.
+Qed.
+Print Assumptions C13_dump_mirrors_input.
+
+(* labels: a constructed element is shown by its label alone, a primitive one as "label: value";
+   the label of a universal tag is its X.680 name, of anything else the decimal tag number *)
+Theorem C13_labels : forall c tag content ch,
+  i_desc (dump false (Cons c tag ch)) = type_string c tag /\
+  i_desc (dump false (Prim c tag content)) = type_string c tag ++ bs ": " ++ value false c tag content /\
+  (c <> 0 -> type_string c tag = dec_of_N tag) /\
+  (forall name, lookup_name tag x680_universal_names = Some name -> type_string 0 tag = name) /\
+  (lookup_name tag x680_universal_names = None -> type_string 0 tag = dec_of_N tag).
+Proof.
+  intros c tag content ch. repeat split.
+  - apply type_string_other_class.
+  - intros name H. apply type_string_universal_named. apply lookup_in_table; [exact names_ok_now|exact H].
+  - intros H. apply type_string_universal_unnamed. apply lookup_not_in_table; [exact names_ok_now|exact H].
+Qed.
+Print Assumptions C13_labels.
+
+(* "label: value" can be read back in one way only: no label contains a colon *)
+Theorem C13_label_value_unambiguous : forall c tag v c' tag' v',
+  type_string c tag ++ bs ": " ++ v = type_string c' tag' ++ bs ": " ++ v' ->
+  type_string c tag = type_string c' tag' /\ v = v'.
+Proof. exact label_value_unambiguous. Qed.
+Print Assumptions C13_label_value_unambiguous.
+
+(* T1: the regenerated name table agrees with the X.680 list, no name contains a colon or is a numeral *)
+Theorem C13_names_table_ok : names_ok asn1_tag_names = true.
+Proof. exact names_ok_now. Qed.
+Print Assumptions C13_names_table_ok.
+
+(* ---------- acceptance ---------- *)
+
+(* The sniffer accepts exactly the byte strings that are one complete DER element: canonical
+   identifier octets, canonical definite length, exactly that many content octets, nothing after. *)
+Theorem C13_acceptance : forall data, bytes_ok data = true ->
+  (is_asn1 data = true <-> one_element data).
+Proof. intros data Hok. split; [apply is_asn1_sound; exact Hok | apply is_asn1_complete]. Qed.
+Print Assumptions C13_acceptance.
+
+Theorem C13_trailing_bytes_rejected : forall data extra,
+  bytes_ok (data ++ extra) = true -> is_asn1 data = true -> extra <> [] -> is_asn1 (data ++ extra) = false.
+Proof. exact is_asn1_no_trailing. Qed.
+Print Assumptions C13_trailing_bytes_rejected.
+
+(* non-DER neighbours of 30 03 02 01 05: indefinite length, non-minimal length, long form for a
+   short length, non-minimal tag, truncation - none is ASN.1, none parses *)
+Theorem C13_neighbours_rejected :
+  forallb (fun d => negb (is_asn1 d) && negb (is_ok (parse_raw false d)))
+    [[48; 128; 2; 1; 5; 0; 0]; [48; 129; 3; 2; 1; 5]; [48; 130; 0; 3; 2; 1; 5]; [63; 16; 3; 2; 1; 5];
+     [48; 3; 2; 129; 1; 5]; [48; 3; 2; 1]; [48; 3]; [48]; []; [48; 3; 2; 128; 5; 0; 0]] = true.
+Proof. vm_compute. reflexivity. Qed.
+Print Assumptions C13_neighbours_rejected.
+
+(* ---------- values of primitive elements ---------- *)
+
+(* everything that is not a universal primitive of one of the eight decoded types is shown as the
+   lower-case hex of its content octets - in particular every application, context-specific and
+   private element whatever its tag number - and the hex text determines the content *)
+Theorem C13_values_hex : forall c tag content,
+  (c <> 0 \/ forallb (fun k => negb (tag =? k)) [1; 2; 5; 6; 12; 18; 19; 23] = true) ->
+  value false c tag content = hex_of false content.
+Proof.
+  intros c tag content [H|H]; [apply value_other_class; exact H|].
+  destruct (N.eq_dec c 0) as [->|Hc]; [apply value_other_universal; exact H|apply value_other_class; exact Hc].
+Qed.
+Print Assumptions C13_values_hex.
+
+Theorem C13_hex_faithful : forall a b,
+  bytes_ok a = true -> bytes_ok b = true -> hex_of false a = hex_of false b -> a = b.
+Proof. exact hexs_injective. Qed.
+Print Assumptions C13_hex_faithful.
+
+(* BOOLEAN (DER: one octet, 00 or FF), NULL (no content); anything else of these types is hex *)
+Theorem C13_values_boolean_null : forall content,
+  value false 0 1 content = match content with [0] => bs "false" | [255] => bs "true" | _ => hex_of false content end /\
+  value false 0 5 content = match content with [] => bs "null" | _ => hex_of false content end.
+Proof. intros. split; [apply value_boolean|apply value_null]. Qed.
+Print Assumptions C13_values_boolean_null.
+
+(* INTEGER: a minimal two's complement content (X.690 8.3.2) is shown as the signed decimal numeral of
+   its value, and that numeral reads back as the value; anything else is hex *)
+Theorem C13_values_integer : forall content, bytes_ok content = true ->
+  (check_integer content = true ->
+     value false 0 2 content = dec_of_Z (twos content) /\ undec_Z (dec_of_Z (twos content)) = twos content) /\
+  (check_integer content = false -> value false 0 2 content = hex_of false content) /\
+  (check_integer content = true <->
+     content <> [] /\
+     (forall b0 b1 r, content = b0 :: b1 :: r -> ~ (b0 = 0 /\ b1 < 128) /\ ~ (b0 = 255 /\ 128 <= b1))).
+Proof.
+  intros content Hok. split; [|split].
+  - intros H. split; [|apply dec_of_Z_spec]. rewrite value_integer by exact Hok. rewrite H. reflexivity.
+  - intros H. rewrite value_integer by exact Hok. rewrite H. reflexivity.
+  - apply check_integer_minimal. exact Hok.
+Qed.
+Print Assumptions C13_values_integer.
+
+Example C13_values_integer_examples :
+  value false 0 2 [0; 200] = bs "200" /\ value false 0 2 [255; 127] = bs "-129" /\ value false 0 2 [128] = bs "-128" /\
+  value false 0 2 [1; 0; 0; 0; 0; 0; 0; 0; 0] = bs "18446744073709551616" /\
+  value false 0 2 [0; 1] = bs "0001" /\ value false 0 2 [] = [].
+Proof. vm_compute. repeat split. Qed.
+
+(* OBJECT IDENTIFIER: every valid arc list (first arc 0..2, second below 40 unless the first is 2), with
+   arcs of any size, encoded per X.690 8.19, is shown in dotted decimal *)
+Theorem C13_values_oid : forall arcs, oid_arcs_ok arcs = true ->
+  value false 0 6 (enc_oid arcs) = join [46] (map dec_of_N arcs).
+Proof. exact value_oid. Qed.
+Print Assumptions C13_values_oid.
+
+Example C13_values_oid_examples :
+  value false 0 6 [42; 134; 72; 134; 247; 13; 1; 1; 12] = bs "1.2.840.113549.1.1.12" /\
+  enc_oid [1; 2; 840; 113549; 1; 1; 12] = [42; 134; 72; 134; 247; 13; 1; 1; 12] /\
+  value false 0 6 (enc_oid [2; 25; 329800735698586629295641978511506172918]) = bs "2.25.329800735698586629295641978511506172918" /\
+  value false 0 6 [42; 128; 1] = bs "2a8001".
+Proof. vm_compute. repeat split. Qed.
+
+(* UTF8String / NumericString / PrintableString: verbatim when the content is of the type, else hex;
+   Go's PrintableString alphabet is the X.680 one plus asterisk and ampersand *)
+Theorem C13_values_strings : forall content,
+  value false 0 12 content = (if utf8_valid content then content else hex_of false content) /\
+  value false 0 18 content = (if forallb is_numeric content then content else hex_of false content) /\
+  value false 0 19 content = (if forallb is_printable content then content else hex_of false content) /\
+  (forall b, b < 256 -> is_printable b = x680_printable b || (b =? 42) || (b =? 38)).
+Proof. intros. repeat split. exact printable_alphabet. Qed.
+Print Assumptions C13_values_strings.
+
+(* UTCTime in the DER form YYMMDDhhmmssZ with fields that denote a date and time: the same fields, with
+   the century of RFC 5280 (YY >= 50: 19YY, else 20YY), as YYYY-MM-DDThh:mm:ssZ *)
+Theorem C13_values_utctime : forall yy mo d h mi s, utc_fields_ok yy mo d h mi s ->
+  value false 0 23 (utc_text yy mo d h mi s) = iso_text (full_year yy) mo d h mi s.
+Proof. exact value_utctime_der. Qed.
+Print Assumptions C13_values_utctime.
+
+Example C13_values_utctime_examples :
+  utc_fields_ok 99 1 1 12 0 30 /\ utc_text 99 1 1 12 0 30 = bs "990101120030Z" /\
+  value false 0 23 (bs "990101120030Z") = bs "1999-01-01T12:00:30Z" /\
+  value false 0 23 (bs "4912312359Z") = bs "2049-12-31T23:59:00Z" /\
+  value false 0 23 (bs "9901011200+0100") = bs "1999-01-01T11:00:00Z" /\      (* zone offsets are converted *)
+  value false 0 23 (bs "000101000000+2400") = bs "1999-12-31T00:00:00Z" /\
+  value false 0 23 (bs "9902291200Z") = hex_of false (bs "9902291200Z").          (* no such day *)
+Proof. vm_compute. repeat split; discriminate. Qed.
+
+(* ---------- what the code did before the repairs (legacy = true): refutation witnesses ---------- *)
+
+(* F16: an empty SEQUENCE is well-formed DER, yet the parser failed and the dump was "unknown ASN.1 data" *)
+Theorem C13_roundtrip_refuted_F16 : exists ts,
+  forest_ok ts = true /\ ts <> [] /\ forest_height ts <= max_depth /\
+  is_ok (parse_raw true (encode_forest ts)) = false /\ describe true (encode_forest ts) = unknown_asn1 /\
+  parse_raw false (encode_forest ts) = Ok ts.
+Proof. exists [Cons 0 16 [Cons 0 16 []]]. vm_compute. repeat split; discriminate. Qed.
+Print Assumptions C13_roundtrip_refuted_F16.
+
+(* F17: context-specific [5] "A" was shown as "5: null"; a universal NULL with content as "NULL: null" *)
+Theorem C13_values_refuted_F17 :
+  i_desc (dump true (Prim 2 5 [65])) = bs "5: null" /\ i_desc (dump false (Prim 2 5 [65])) = bs "5: 41" /\
+  i_desc (dump true (Prim 0 5 [0])) = bs "NULL: null" /\ i_desc (dump false (Prim 0 5 [0])) = bs "NULL: 00".
+Proof. vm_compute. repeat split. Qed.
+Print Assumptions C13_values_refuted_F17.
+
+(* UTCTime: the zone's local clock was printed followed by a literal Z (one hour off here), and the
+   seconds were dropped (two instants, one text) *)
+Theorem C13_values_refuted_utctime :
+  value true 0 23 (bs "9901011200+0100") = bs "1999-01-01T12:00Z" /\
+  option_map fst (dec_utctime (bs "9901011200+0100")) = option_map fst (dec_utctime (bs "990101110000Z")) /\
+  value true 0 23 (bs "990101120030Z") = value true 0 23 (bs "990101120000Z").
+Proof. vm_compute. repeat split. Qed.
+Print Assumptions C13_values_refuted_utctime.
+
+(* OID arcs of 2^31 and more were shown as hex (asn1.ObjectIdentifier's limit) *)
+Theorem C13_values_refuted_oid :
+  value true 0 6 (enc_oid [1; 2; 2147483648]) = hex_of false (enc_oid [1; 2; 2147483648]) /\
+  value false 0 6 (enc_oid [1; 2; 2147483648]) = bs "1.2.2147483648".
+Proof. vm_compute. repeat split. Qed.
+Print Assumptions C13_values_refuted_oid.
